@@ -7,6 +7,12 @@ def check(rep):
     ctx = Ctx(rep)
     ER.rule_commit_order(ctx)
     ER.rule_skip_guard(ctx)
+    ER.rule_fingerprint_recorded(ctx)
+    COMPILE_PATH = {"language/lexer.py", "language/grammar.py", "codegen/python/python_generator.py", "experiment_evaluator.py",
+                    "data_structures/syntax_tree.py"}
+    ER.rule_no_shared_state(ctx, rid="C11.NO-SHARED-COMPILE-STATE",
+                            only=lambda m, fn: m.rel in COMPILE_PATH or (m.rel == "utils/wraper_functions.py" and fn.name == "parse_source"),
+                            floor=20)
     ER.rule_instance_only(ctx)
     ER.rule_installed_function(ctx)
     ER.rule_init_delegates(ctx)
